@@ -317,6 +317,15 @@ func ruleC12(w *World, r *Report) {
 		r.Check(found, "C12.syntax.dom/defaultRuleValidator", "GUARD-DOM", fnShort(fi), w.Pos(fi.Fn.Pos()), "a rule not matching IsValidRule leads only to failure", "defaultRuleValidator does not fail on !IsValidRule(rule)")
 	}
 
+	k.authenticateRule("C12.")
+	r.MinInstances("C12.", 12)
+}
+
+// authenticateRule: Authenticate matches (source,dest,port) against each stored rule exactly
+// field-wise. Used by C12 (the matching semantics) and by C11 (the relay whitelist is only
+// enforced if matching is exact).
+func (k *K) authenticateRule(pfx string) {
+	w, r := k.w, k.r
 	// ---- (3) matching
 	fi := k.method(pRoutingKeeper, "Keeper", "Authenticate")
 	if fi == nil {
@@ -334,20 +343,20 @@ func ruleC12(w *World, r *Report) {
 		}
 	}
 	if len(matches) == 0 {
-		r.Undecided("C12.match/converter", "CONST-EVAL", fn, w.Pos(fi.Fn.Pos()), "Authenticate uses no regexp call; field-wise matching is not an idiom this rule can decide")
+		r.Undecided(pfx+"match/converter", "CONST-EVAL", fn, w.Pos(fi.Fn.Pos()), "Authenticate uses no regexp call; field-wise matching is not an idiom this rule can decide")
 	}
 	for _, m := range matches {
 		name := funcName(m.Call.StaticCallee())
 		site := fi.InstrPos(m)
 		if name != "regexp.MatchString" {
-			r.Undecided("C12.match/converter", "CONST-EVAL", fn, site, "unrecognised regexp use "+name)
+			r.Undecided(pfx+"match/converter", "CONST-EVAL", fn, site, "unrecognised regexp use "+name)
 			continue
 		}
 		pat, subj := fi.T.Of(m.Call.Args[0]), fi.T.Of(m.Call.Args[1])
 		// subject = source "," dest "," port of the parameters, in order
 		sh := w.ShapeOf(subj)
 		wantSubj := `<str $2>","<str $3>","<str $4>`
-		r.Check(sh.String() == wantSubj, "C12.match/subject", "BIND", fn, site, "subject = source,dest,port", "subject is "+sh.String()+", expected "+wantSubj)
+		r.Check(sh.String() == wantSubj, pfx+"match/subject", "BIND", fn, site, "subject = source,dest,port", "subject is "+sh.String()+", expected "+wantSubj)
 		// locate the rule element inside the pattern term
 		var ruleKey string
 		pat.Walk(func(x *Term) {
@@ -356,7 +365,7 @@ func ruleC12(w *World, r *Report) {
 			}
 		})
 		if ruleKey == "" {
-			r.Undecided("C12.match/converter", "CONST-EVAL", fn, site, "cannot find the stored rule inside the pattern expression "+clip(pat.String()))
+			r.Undecided(pfx+"match/converter", "CONST-EVAL", fn, site, "cannot find the stored rule inside the pattern expression "+clip(pat.String()))
 			continue
 		}
 		var probs []string
@@ -390,18 +399,18 @@ func ruleC12(w *World, r *Report) {
 			}
 		}
 		if undecided {
-			r.Undecided("C12.match/converter", "CONST-EVAL", fn, site, "the rule-to-pattern converter uses an operation this rule cannot evaluate: "+clip(pat.String()))
+			r.Undecided(pfx+"match/converter", "CONST-EVAL", fn, site, "the rule-to-pattern converter uses an operation this rule cannot evaluate: "+clip(pat.String()))
 			continue
 		}
 		if len(probs) > 4 {
 			probs = append(probs[:4], fmt.Sprintf("... and %d more characters", len(probs)-4))
 		}
-		r.Check(len(probs) == 0, "C12.match/converter", "CONST-EVAL", fn, site, "every permitted character matches literally, * matches any run, pattern anchored", strings.Join(probs, "; "))
+		r.Check(len(probs) == 0, pfx+"match/converter", "CONST-EVAL", fn, site, "every permitted character matches literally, * matches any run, pattern anchored", strings.Join(probs, "; "))
 		// a mixed witness
 		if out, ok := evalStringTerm(pat, ruleKey, "a.b,*,c+d"); ok {
 			re, err := regexp.Compile(out)
 			good := err == nil && re.MatchString("a.b,anything,c+d") && !re.MatchString("aXb,anything,c+d") && !re.MatchString("a.b,x,c+d2") && !re.MatchString("za.b,x,c+d") && !re.MatchString("a.b,x,cd")
-			r.Check(good, "C12.match/witness", "CONST-EVAL", fn, site, "witness rule a.b,*,c+d matches exactly field-wise", fmt.Sprintf("witness rule \"a.b,*,c+d\" becomes %q which does not match field-wise (err=%v)", out, err))
+			r.Check(good, pfx+"match/witness", "CONST-EVAL", fn, site, "witness rule a.b,*,c+d matches exactly field-wise", fmt.Sprintf("witness rule \"a.b,*,c+d\" becomes %q which does not match field-wise (err=%v)", out, err))
 		}
 	}
 
@@ -455,7 +464,7 @@ func ruleC12(w *World, r *Report) {
 				ok = false
 			}
 		}
-		r.Check(ok, "C12.empty/result", "MUST-PASS", fn, fi.InstrPos(rt.Instr), "returns false or the result of a match", "Authenticate can return "+clip(v.String())+", which is neither false nor the result of matching a stored rule")
+		r.Check(ok, pfx+"empty/result", "MUST-PASS", fn, fi.InstrPos(rt.Instr), "returns false or the result of a match", "Authenticate can return "+clip(v.String())+", which is neither false nor the result of matching a stored rule")
 	}
 	// not found -> false
 	nf := false
@@ -466,8 +475,7 @@ func ruleC12(w *World, r *Report) {
 			nf = true
 		}
 	}
-	r.Check(nf, "C12.empty/no-rules", "MUST-PASS", fn, w.Pos(fi.Fn.Pos()), "no stored rules => false", "no 'rules not found => return false' path")
-	r.MinInstances("C12.", 12)
+	r.Check(nf, pfx+"empty/no-rules", "MUST-PASS", fn, w.Pos(fi.Fn.Pos()), "no stored rules => false", "no 'rules not found => return false' path")
 }
 
 func isAnyRun(re *syntax.Regexp) bool {
